@@ -191,7 +191,7 @@ where
 
     /// Decode a non-zero integer from big endian bytes.
     pub fn from_le_byte_array(bytes: ByteArray<T>) -> CtOption<Self> {
-        Self::new(T::from_be_byte_array(bytes))
+        Self::new(T::from_le_byte_array(bytes))
     }
 }
 
